@@ -10,6 +10,8 @@ mod rng;
 mod c01;
 mod c02;
 mod c05;
+mod c06;
+mod c08;
 mod pk;
 mod c12;
 mod faults;
@@ -31,6 +33,8 @@ fn build(id: &str, ctx: &Ctx) -> Option<Property> {
         "C01" => c01::build(ctx),
         "C02" => c02::build(ctx),
         "C05" => c05::build(ctx),
+        "C06" => c06::build(ctx),
+        "C08" => c08::build(ctx),
         "C12" => c12::build(ctx),
         _ => return None,
     })
